@@ -190,6 +190,7 @@ Section P5.
   (* ---------- arithmetic priors in the ModelTree: the attribute names do not matter for values ---------- *)
   Section Names.
     Variable bin : binop -> V -> V -> V.
+    Variable un : unop -> V -> V.
     Notation node := (node V).
 
     (* the operands of every arithmetic prior hang under left_ / right_ *)
@@ -222,7 +223,7 @@ Section P5.
     Proof. induction ms as [|[k [i c]] ms IH]; simpl; [reflexivity|]. rewrite IH. reflexivity. Qed.
 
     (* values: an instance never looks at the attribute names of an arithmetic prior *)
-    Lemma inst_cn (a : nat -> option V) (n : node) : inst V bin a (cn n) = inst V bin a n.
+    Lemma inst_cn (a : nat -> option V) (n : node) : inst V bin un a (cn n) = inst V bin un a n.
     Proof.
       induction n as [q|c|ms IH|o ln rn l r IHl IHr|cls ctor attrs IH|attrs IH] using (node_ind' V).
       - reflexivity.
@@ -232,8 +233,8 @@ Section P5.
         rewrite Forall_forall in IH. exact (IH _ Hin).
       - cbn [cn inst]. rewrite IHl, IHr. reflexivity.
       - cbn [cn inst]. rewrite cn_attrs_eq. rewrite !inst_attrs_map.
-        assert (M : map (fun kv => (fst kv, inst V bin a (snd kv))) (cn_attrs attrs)
-                    = map (fun kv => (fst kv, inst V bin a (snd kv))) attrs).
+        assert (M : map (fun kv => (fst kv, inst V bin un a (snd kv))) (cn_attrs attrs)
+                    = map (fun kv => (fst kv, inst V bin un a (snd kv))) attrs).
         { unfold cn_attrs. rewrite map_map. apply map_ext_in. intros [k c] Hin. simpl. f_equal.
           rewrite Forall_forall in IH. exact (IH _ Hin). }
         rewrite M. reflexivity.
@@ -281,7 +282,7 @@ Section P5.
     (* same parameter order and count, and the same instance for every parameter vector *)
     Theorem vector_cn (n : node) (vec : list V) :
       wf V n -> ordered_ids V (cn n) = ordered_ids V n /\ prior_count V (cn n) = prior_count V n /\
-               inst_from_vector V bin (cn n) vec = inst_from_vector V bin n vec.
+               inst_from_vector V bin un (cn n) vec = inst_from_vector V bin un n vec.
     Proof.
       intro W. pose proof (ordered_ids_cn n W) as E. split; [exact E|]. split.
       - rewrite <- !ordered_ids_length, E. reflexivity.
@@ -361,7 +362,7 @@ Section P5.
       exists n', db_rt V cf n = Ok n' /\
                  ordered_ids V (tree V n') = ordered_ids V (tree V n) /\
                  prior_count V (tree V n') = prior_count V (tree V n) /\
-                 inst_from_vector V bin (tree V n') vec = inst_from_vector V bin (tree V n) vec.
+                 inst_from_vector V bin un (tree V n') vec = inst_from_vector V bin un (tree V n) vec.
     Proof.
       intros HQ HR W. eexists. split; [apply (db_image n HQ HR)|].
       unfold tree. rewrite erase_db_image. apply vector_cn. exact W.
